@@ -19,7 +19,8 @@ PURE = re.compile(r"(::base_dir|::temp_dir|::capacity|::trigger|into_owned|PathB
 
 
 def short(callee):
-    c = re.sub(r"::<.*", "", callee)
+    c = re.sub(r"^Atomic::<\w+>::", "Atomic::", callee)
+    c = re.sub(r"::<.*", "", c)
     c = re.sub(r"^<(\w+) as (\w+)>::", r"\2::", c)
     if c.startswith("CacheDir::"):
         return c
@@ -422,6 +423,80 @@ def proto_glue(funcs, text):
             if m:
                 bad("errors", p, "sharded %s: %s" % (op, m))
 
+    # ---- maintenance entry points (C10, C20, C05): run only when the trigger fires, absent directory is not an error ----
+    name, run, paths = explore(funcs, r"^CacheDir::maybe_cleanup$")
+    fnames.append("cache_dir::" + name)
+    decls += run.ex.decls
+    npaths[name] = len(paths)
+    for p in paths:
+        eff = effects(p)
+        names = [n for (n, _l, _a, _i) in eff]
+        ev = [x for x in eff if x[0].endswith("event")]
+        dc = [x for x in eff if x[0].endswith("definitely_cleanup")]
+        if not ev or names.index(ev[0][0]) != 0:
+            bad("maintenance", p, "maybe_cleanup does not consult the trigger first (%r)" % (names[:2],))
+            continue
+        if ev[0][1] == "false" and (len(names) != 1 or p["rid"] != ("Result", 0, (("Option", 0, ()),))):
+            bad("maintenance", p, "maybe_cleanup does something although the trigger did not fire (%r)" % (names,))
+        if ev[0][1] == "true":
+            if not dc or list(dc[0][2])[0] != "ARG_1":
+                bad("maintenance", p, "maybe_cleanup does not run maintenance when the trigger fires")
+            elif dc[0][1] == "ok" and p["rid"] != ("Result", 0, (("Option", 1, (dc[0][3],)),)):
+                bad("maintenance", p, "maybe_cleanup does not return maintenance's estimate")
+        m = errors_returned(p)
+        if m:
+            bad("errors", p, "maybe_cleanup: " + m)
+    name, run, paths = explore(funcs, r"^CacheDir::definitely_cleanup$")
+    fnames.append("cache_dir::" + name)
+    decls += run.ex.decls
+    npaths[name] = len(paths)
+    for p in paths:
+        eff = effects(p)
+        names = [n for (n, _l, _a, _i) in eff]
+        if names != ["prune", "CacheDir::cleanup_temp_directory"][:len(names)] or not names:
+            bad("maintenance", p, "definitely_cleanup issues %r" % (names,))
+            continue
+        pr = eff[0]
+        if list(pr[2])[0] != "ARG_2":
+            bad("maintenance", p, "definitely_cleanup prunes something other than the directory it was given")
+        ab = [(e, o) for (e, o) in p["events"] if short(e["callee"]) == "is_absent_file_error"]
+        if pr[1] == "err" and ab and ab[0][1]["label"] == "true":
+            if p["rid"] != ("Result", 0, ("0",)) or len(names) != 1:
+                bad("maintenance", p, "a missing cache directory is not reported as an empty one")
+        elif pr[1] == "ok":
+            if len(names) != 2:
+                bad("maintenance", p, "definitely_cleanup does not clean the temporary directory after pruning")
+            elif eff[1][1] == "ok" and (not isinstance(pr[3], tuple) or p["rid"] != ("Result", 0, (pr[3][0],))):
+                bad("maintenance", p, "definitely_cleanup does not return prune's estimate")
+        m = errors_returned(p, lambda eff_, i: eff_[i][0] == "prune" and bool(ab) and ab[0][1]["label"] == "true")
+        if m:
+            bad("errors", p, "definitely_cleanup: " + m)
+    for pat, label in ((r"^sharded::<impl .*>::maintain_random_other_shard$", "maintain_random_other_shard"), (r"^sharded::<impl .*>::force_maintain_shard$", "force_maintain_shard")):
+        name, run, paths = explore(funcs, pat)
+        fnames.append("sharded::Cache::" + label)
+        decls += run.ex.decls
+        npaths[name] = len(paths)
+        for p in paths:
+            eff = effects(p)
+            names = [n for (n, _l, _a, _i) in eff]
+            if label == "maintain_random_other_shard":
+                oth = [x for x in eff if x[0].endswith("other_shard_id")]
+                rnd = [x for x in eff if x[0].endswith("random_shard_id")]
+                rep = [x for x in eff if x[0].endswith("replace_shard")]
+                fm = [x for x in eff if x[0].endswith("force_maintain_shard")]
+                if not (oth and rnd and rep and fm) or rnd[0][3] not in list(_flat(oth[0][2])) or "ARG_2_f0" not in list(_flat(oth[0][2])) \
+                        or oth[0][3] not in list(_flat(rep[0][2])) or rep[0][3] not in list(_flat(fm[0][2])):
+                    bad("maintenance", p, "the second shard maintained is not other_shard_id(base shard, random draw)")
+            else:
+                mt = [x for x in eff if x[0] == "CacheDir::maintain"]
+                st_ = [x for x in eff if x[0].endswith("store")]
+                if not mt or list(mt[0][2])[0] != "ARG_2":
+                    bad("maintenance", p, "force_maintain_shard does not maintain the shard it was given")
+                elif mt[0][1] == "ok" and (not st_ or "elem[ARG_2_f0]" not in list(_flat(st_[0][2]))):
+                    bad("maintenance", p, "force_maintain_shard does not record the estimate for the shard it maintained")
+            m = errors_returned(p)
+            if m:
+                bad("errors", p, "%s: %s" % (label, m))
     # ---- bookkeeping helpers are pure: no file-system call at all (C20: constant resource use outside maintenance) ----
     FS = re.compile(r"(read_dir|ReadDir|metadata|File::open|remove_file|rename|hard_link|create_dir|set_file|set_permissions|DirEntry)")
     for pat, label in ((r"^sharded::<impl .*>::sort_by_load$", "sort_by_load"), (r"^sharded::<impl .*>::shard_ids$", "shard_ids"),
@@ -453,6 +528,8 @@ def proto_glue(funcs, text):
                 break
     texts = {
         "nonblocking": ("C06", "get / touch / set / put and the publication steps below them are loop-free and call no locking, sleeping or waiting primitive (maintenance excluded)"),
+        "maintenance": ("C10+C20+C05", "maintenance runs only when the trigger fires; it prunes the directory it was given, then cleans its temp directory; a missing "
+                        "directory counts as empty; its estimate is returned unchanged; the extra shard maintained is other_shard_id(base, random draw)"),
         "pure": ("C20+C12", "the shard-selection and load-bookkeeping helpers never touch the file system"),
         "update": ("C01+C02+C03+C04", "insert_or_update is exactly: re-stamp the source, make it read-only, rename it over the key, remove the source name (absent is fine)"),
         "insert": ("C01+C02+C03+C04", "insert_or_touch is exactly: re-stamp the source, make it read-only, link it under the key (on AlreadyExists touch the entry instead), remove the source name"),
